@@ -66,7 +66,7 @@ def walk(case, rec, mo):
     ci, cm = rec.get("ctor"), mo.get("ctor")
     e = Ev(); e.i = -1; e.kind = "ctor"; e.op = None; e.prev = None
     e.ri = "ok" if ci and "err" not in ci else "rej"; e.rm = "ok" if "err" not in cm else "rej"
-    e.oi = ci if e.ri == "ok" else None; e.om = cm if e.rm == "ok" else None; e.synced = True; e.unchanged = None; e.exc = ""
+    e.oi = ci if e.ri == "ok" else None; e.om = cm if e.rm == "ok" else None; e.synced = True; e.unchanged = None; e.exc = ""; e.srej = None
     evs.append(e)
     if e.ri != "ok":
         return evs
@@ -76,7 +76,7 @@ def walk(case, rec, mo):
         m = msteps[i] if i < len(msteps) else {"r": "missing"}
         e = Ev(); e.i = i; e.op = op; e.kind = "probe" if op.get("probe") else "act"; e.prev = cur
         e.ri = st["r"]; e.rm = "ok" if m["r"] == "ok" else "rej"; e.oi = st.get("s"); e.om = m.get("s")
-        e.synced = synced; e.unchanged = st.get("unchanged"); e.exc = st.get("e", "")
+        e.synced = synced; e.unchanged = st.get("unchanged"); e.exc = st.get("e", ""); e.srej = st.get("s_rej")
         evs.append(e)
         if e.kind == "act":
             if e.ri == "ok":
@@ -180,6 +180,12 @@ class C09(GinProp):
         init = ms(case["deck"] + case["discard"] + case["p1"] + case["p2"])
         for e in evs:
             o = e.oi
+            if o is None and e.srej is not None:
+                # a call that raised but left the object changed: the cards must still be the dealt ones
+                allc = e.srej["deck"] + e.srej["discard"] + e.srej["p1"] + e.srej["p2"]
+                if ms(allc) != init or any(c is None for c in allc):
+                    why.append(f"step {e.i} {op_str(e.op)} raised ({e.exc}) and left containers that no longer hold each dealt card "
+                               f"exactly once (extra {list((ms(allc) - init).elements())}, missing {list((init - ms(allc)).elements())})"); break
             if o is None:
                 continue
             allc = o["deck"] + o["discard"] + o["p1"] + o["p2"]
@@ -501,7 +507,10 @@ class C08(Prop):
     def generate(self, rng, tier, shard):
         while True:
             h = self.gen_hand(rng)
-            yield {"hand": h, "max_dw": rng.choice([None, 10, 10, 0, 25]), "stop": rng.random() < 0.5}
+            c = {"hand": h, "max_dw": rng.choice([None, 10, 10, 0, 25]), "stop": rng.random() < 0.5}
+            if rng.random() < 0.25:
+                c["pre"] = rng.randrange(1, 1 << 16)
+            yield c
 
     def exhaustive(self, tier, shard, nshards):
         if tier != "thorough":
@@ -513,6 +522,8 @@ class C08(Prop):
 
     def impl(self, case):
         out = {}
+        if case.get("pre"):
+            gin.helper_prelude(case["hand"], case["pre"])
         try:
             d, melds, um = self.ru.split_melds(list(case["hand"]))
             out["split"] = {"dw": d, "melds": [list(m) for m in melds], "um": list(um)}
@@ -634,9 +645,14 @@ class C12(Prop):
             if len(rest) < 10:
                 rest = [c for c in gin.CARDS if c not in kh]
             dh = rng.sample(rest, 10)
-            yield {"hand": dh, "opp": opp, "stop": rng.random() < 0.5}
+            c = {"hand": dh, "opp": opp, "stop": rng.random() < 0.5}
+            if rng.random() < 0.3:
+                c["pre"] = rng.randrange(1, 1 << 16)
+            yield c
 
     def impl(self, case):
+        if case.get("pre"):
+            gin.helper_prelude(case["hand"], case["pre"])
         try:
             d, melds, lo, um = self.ru.layoff_deadwood(list(case["hand"]), [list(m) for m in case["opp"]], stop_on_zero=case["stop"])
             return {"dw": d, "melds": [list(m) for m in melds], "lo": list(lo), "um": list(um)}
@@ -691,7 +707,10 @@ class C19(Prop):
 
     def generate(self, rng, tier, shard):
         while True:
-            yield {"hand": gin.dense_cards(rng, rng.choice([7, 8]))}
+            c = {"hand": gin.dense_cards(rng, rng.choice([7, 8]))}
+            if rng.random() < 0.25:
+                c["pre"] = rng.randrange(1, 1 << 16)
+            yield c
 
     def exhaustive(self, tier, shard, nshards):
         if tier != "thorough":
@@ -705,6 +724,8 @@ class C19(Prop):
                     yield {"hand": list(h)}
 
     def impl(self, case):
+        if case.get("pre"):
+            gin.helper_prelude(case["hand"], case["pre"])
         try:
             s, p = self.ku.sorted_hand_points(list(case["hand"]))
             return {"points": p, "sorted": list(s), "hp": self.ku.hand_points(list(case["hand"])), "sh": list(self.ku.sort_hand(list(case["hand"])))}
